@@ -93,3 +93,14 @@ Definition judge_elem (c : ty * ty * ty * ty) : nat :=
   let rbad := has_bad ra || has_bad rb in
   if mbad || rbad then (if mbad && rbad then 0 else 2)
   else if teqb ma ra && teqb mb rb then 0 else 2.
+
+(* references with SHARED ground sub-references (one reference object under two fields): the pure model is the
+   tree reading.  0: as the model; 3: the model reports a clash, the implementation does not; 4: the implementation
+   reports a clash, the model does not; 2: both clash free but different types *)
+Definition judge_sh (c : ty * ty * ty * ty) : nat :=
+  let '(a, b, ra, rb) := c in
+  let m := meet a b in
+  let rbad := has_bad ra || has_bad rb in
+  if has_bad m then (if rbad then 0 else 3)
+  else if rbad then 4
+  else if teqb m ra && teqb m rb then 0 else 2.
